@@ -134,7 +134,7 @@ def text_layer(ctx, ncases):
 def run(ctx):
     overload_layer(ctx)
     text_layer(ctx, 0)
-    random_layer(ctx, 4000 if ctx.thorough() else 700, 5 if ctx.thorough() else 3)
+    random_layer(ctx, 60000 if ctx.thorough() else 700, 5 if ctx.thorough() else 3)
 
 
 def replay(ctx, body):
